@@ -15,8 +15,7 @@ Section WithSbox.
   Definition repo_key_expand_256_aesni : list N -> list m128 :=
     key_expand_256_aesni sb rkeys_slots loads256 mkrkey256 mk256_s_off mk256_t_off mk256_slli.
   Definition repo_key_expand_aesni : list N -> option (list m128 * N) :=
-    key_expand_aesni sb rkeys_slots loads128 loads256 mkrkey128 mkrkey256
-      mk128_s_off mk128_t_off mk128_shuffle mk256_s_off mk256_t_off mk128_slli mk256_slli nr128 nr256.
+    key_expand_aesni nr128 nr256 repo_key_expand_128_aesni repo_key_expand_256_aesni.
   Definition repo_encrypt_block_aesni : list m128 * N -> m128 -> m128 :=
     encrypt_block_aesni sb enc_first enc_pre enc_threshold enc_branch.
 End WithSbox.
